@@ -42,16 +42,11 @@ func NewFilter(matchers []*labels.Matcher) Filter {
 func (f filter) Matchers() []*labels.Matcher { return f.matchers }
 
 func (f filter) Matches(series storage.Series) bool {
-	if len(f.matcherSet) == 0 {
-		return true
-	}
-
-	for _, l := range series.Labels() {
-		m, ok := f.matcherSet[l.Name]
-		if !ok {
-			continue
-		}
-		if !m.Matches(l.Value) {
+	// Every filter has to hold, including several filters on the same label
+	// and filters on labels the series does not have (matched against "").
+	lbls := series.Labels()
+	for _, m := range f.matchers {
+		if !m.Matches(lbls.Get(m.Name)) {
 			return false
 		}
 	}
